@@ -513,7 +513,7 @@ func restHTTPTranscoder(rule cfgBinding) (*vanguard.Transcoder, *restBackend, er
 
 // ---- generator ----
 
-var restStrings = []string{"b1", "shelves/s1", "shelves/a b", "x/1", "a/q/b/r/s", "x/k", "a b", "a/b", "a%2Fb", "100%", "100%41", "50%25", "ü", "x:y", "a?b=c&d", "+plus+", "..", ".", "~t_-.", "a;b,c", "quo\"te", "{brace}", "", "shelves/s1", "shelves/s 1/x", "#frag", "[x]", "%", "%zz", "q=1", "Shelves/s1", "SHELVES/s1", "X/1", "A/q/b/r", "a/q/B/r"}
+var restStrings = []string{"b1", "shelves/s1", "shelves/a b", "x/1", "a/q/b/r/s", "x/k", "a b", "a/b", "a%2Fb", "a%2fb", "shelves/%2f", "100%", "100%41", "50%25", "ü", "x:y", "a?b=c&d", "+plus+", "..", ".", "~t_-.", "a;b,c", "quo\"te", "{brace}", "", "shelves/s1", "shelves/s 1/x", "#frag", "[x]", "%", "%zz", "q=1", "Shelves/s1", "SHELVES/s1", "X/1", "A/q/b/r", "a/q/B/r"}
 
 var restTemplates = []string{"/v1/books", "/v1/books/{name}", "/v1/{name=shelves/*}/books", "/v1/books/{inner.id}", "/v1/{name=**}", "/v1/books:archive",
 	"/v1/items/{n}", "/v1/deep/{inner.deep.leaf}/x", "/v2/{name}/{inner.id}", "/v1/*/list", "/v1/books/{name}:verb", "/v1/shelves/{name=*}",
@@ -546,7 +546,7 @@ func streamRest(e *Emitter, rng *rand.Rand, tier string) {
 					parts = append(parts, pick(rng, []string{"s1", "a b", "x", "B"}))
 				case "**":
 					for k := rng.IntN(3); k > 0; k-- {
-						parts = append(parts, pick(rng, []string{"p", "q r", "z"}))
+						parts = append(parts, pick(rng, []string{"p", "q r", "z", "p", "a%2fb", "%2F"}))
 					}
 				default:
 					if rng.IntN(6) == 0 {
